@@ -18,7 +18,9 @@ EXPLANATION = (
     "1). PATH-1 on wave_function.get_init_walkers: every path through the function ends in a return of a "
     "walker container replicated n_walkers times (one array when restricted, a two-element list "
     "otherwise) or in an explicit raise; in the restricted closed-shell branch every return is dominated "
-    "by abs(det overlap) > threshold on the orbitals it returns and the failure path raises ValueError."
+    "by abs(det overlap) > threshold on the orbitals it returns and the failure path raises ValueError. "
+    "GUARD-1: the accepted overlap of a restricted initial walker covers both spin sectors of the "
+    "trial. "
 )
 NOT_DECIDED = (
     "orthonormality of Q, invariance of energy / force bias under QR, the overlap lower bound in the "
